@@ -285,6 +285,22 @@ impl<'p> SessExec<'p> {
                 self.values.push((i, v));
                 out
             }
+            Req::MakeObject { values } => {
+                if self.values.is_empty() {
+                    res.noop = true;
+                    return none;
+                }
+                let mut vs = Vec::new();
+                for (i2, h) in values.iter().enumerate() {
+                    let k = self.sel_value(*h).unwrap();
+                    res.values.push(self.values[k].0);
+                    vs.push((self.sess.program().intern_str(&format!("f{i2}")), self.values[k].1.clone()));
+                }
+                let v = self.sess.program_mut().make_object(&vs);
+                let out = self.sess.manifest_json(&v, false);
+                self.values.push((i, v));
+                out
+            }
             Req::Gc => {
                 self.sess.program_mut().gc();
                 none
@@ -402,6 +418,15 @@ impl<'p> Fresh<'p, '_> {
                 let v = self.sess.program_mut().make_array(&vs);
                 (self.sess.manifest_json(&v, false), Some(v))
             }
+            Req::MakeObject { .. } => {
+                let mut vs = Vec::new();
+                for (i2, q) in res.values.iter().enumerate() {
+                    let v = self.value_of(*q)?;
+                    vs.push((self.sess.program().intern_str(&format!("f{i2}")), v));
+                }
+                let v = self.sess.program_mut().make_object(&vs);
+                (self.sess.manifest_json(&v, false), Some(v))
+            }
             _ => (Some(String::new()), None),
         })
     }
@@ -483,7 +508,7 @@ pub fn check_history(h: &History, st: &mut SessStats, err: &mut ErrReader) -> Op
     for (r, out) in outs.iter().enumerate() {
         let op = &h.ops[r];
         st.requests += 1;
-        if resolved[r].noop || !matches!(op.req, Req::Load(_) | Req::Eval { .. } | Req::Top { .. } | Req::Call { .. } | Req::Manifest { .. } | Req::MakeArray { .. }) {
+        if resolved[r].noop || !matches!(op.req, Req::Load(_) | Req::Eval { .. } | Req::Top { .. } | Req::Call { .. } | Req::Manifest { .. } | Req::MakeArray { .. } | Req::MakeObject { .. }) {
             continue;
         }
         st.compared += 1;
